@@ -8,6 +8,7 @@ package gen
 //	func NewPGPKey(name string) (*PGPKey, error)        // RSA-1024 sign-capable entity, creation time PGPFixedTime (~60 ms)
 //	func (k *PGPKey) DetachSign(msg []byte) ([]byte, error)        // binary (non-armoured) detached signature, type 0x00
 //	func (k *PGPKey) DetachSignArmored(msg []byte) (string, error)
+//	func (k *PGPKey) PublicBinary() []byte              // unarmoured public key packets (gpgv --keyring file)
 //	func (k *PGPKey) Private() (string, error)          // armoured secret key, for artefacts that must re-sign
 //	func PGPKeyring(keys ...*PGPKey) openpgp.EntityList // public halves only (what a verifier would hold)
 //	func PGPReadKeyring(armored ...string) (openpgp.EntityList, error)   // from the armoured blocks stored in artefacts
@@ -66,6 +67,13 @@ func NewPGPKey(name string) (*PGPKey, error) {
 	}
 	w.Close()
 	return &PGPKey{Name: name, Entity: e, Public: pub.String(), Fingerprint: PGPFingerprint(e)}, nil
+}
+
+// PublicBinary returns the public key as unarmoured OpenPGP packets (a keyring file for gpgv --keyring).
+func (k *PGPKey) PublicBinary() []byte {
+	var b bytes.Buffer
+	k.Entity.Serialize(&b)
+	return b.Bytes()
 }
 
 // Private returns the armoured secret key block.
